@@ -378,6 +378,8 @@ int main(int argc, char** argv) {
         else { fprintf(stderr, "unknown bad op %s\n", what); return 9; }
         del_raw(bad);
       }
+      else if (!strcmp(what, "resize_huge")) { idx = 0; HC_TRY(resize(c, (size_t)1 << 60)); }                  /* more than can be had */
+      else if (!strcmp(what, "resize_wrap")) { idx = 0; HC_TRY(resize(c, ((size_t)1 << 59) + 1)); }            /* the byte count wraps for 16- and 32-byte slots */
       else if (!strcmp(what, "resize_grow")) { idx = L + 3; HC_TRY(resize(c, (size_t)idx)); }   /* Tuple only */
       else if (!strcmp(what, "new_alien")) {
         /* a constructor that is handed an element it cannot take (between two good ones): it raises; what it leaves behind
